@@ -148,7 +148,10 @@ def collection_sources(v):
     out = _collection_sources(v)
     if out is None:
         return None
-    return {FILE_LINES if x in _FILE_LINES_SPELLINGS else x for x in out}
+    # the path handed to the loader by reference / as a str slice / as a copy is the same path
+    def norm(x):
+        return re.sub(r"(args\.removal_marker_target_config)(?:\.as_deref\(\)|\.as_ref\(\)|\.clone\(\)|\.as_str\(\))+", r"\1", x)
+    return {FILE_LINES if norm(x) in _FILE_LINES_SPELLINGS else x for x in out}
 
 
 def _collection_sources(v):
@@ -249,6 +252,9 @@ def cli_config_wiring(ctx, res, rule, only=None):
         for k, w in want.items():
             if only and k not in only:
                 continue
+            if k == "current" and got.get(k) is not None:
+                # lazily evaluated default: `unwrap_or_else(|_| now())` is `unwrap_or(now())` (the clock has no observable effect)
+                got[k] = re.sub(r"\.unwrap_or_else\(\|_\w*\| (.+)\)$", r".unwrap_or(\1)", got[k])
             if k == "current" and got.get(k) != w:
                 # the same choice written as a `match` on the parse result: Ok(t) => t, Err(_) => Local::now()
                 d = o["decisions"].get("is_ok(args.time_limited_current.parse())")
